@@ -1064,6 +1064,24 @@ class Run:
             return k_
         if fn in ('strlen', 'strstr', 'strchr', 'strrchr') and not e.get('clsp'):
             return self.libc_str(e, fn)
+        if fn in ('memchr', 'memrchr') and not e.get('clsp') and len(e.get('a', [])) == 3:
+            # reads exactly the n bytes it is given (no stop at a NUL): each is loaded, so a range past the buffer is seen
+            a = [self.val(x) for x in e['a']]
+            if not (isinstance(a[0], tuple) and a[0][0] == 'P' and isinstance(a[1], int) and isinstance(a[2], int)):
+                raise Unsupported('`%s`' % pe(e))
+            if a[2] < 0:
+                raise OOB(a[0][1], a[2], len(self.bufs.get(a[0][1], [])), e.get('l'))
+            hits = []
+            for k_ in range(a[2]):
+                b_ = self.load(('P', a[0][1], a[0][2] + k_), e.get('l'))
+                if not isinstance(b_, int):
+                    raise Unsupported('memchr over abstract bytes')
+                if (b_ & 255) == (a[1] & 255):
+                    hits.append(k_)
+                    if fn == 'memchr':
+                        break
+                self.tick()
+            return ('P', a[0][1], a[0][2] + hits[-1]) if hits else 0
         if fn in ('snprintf', 'sprintf') and not e.get('clsp'):
             return self.libc_printf(e, fn)
         if fn in ('strtoul', 'strtol') and not e.get('clsp') and len(e.get('a', [])) == 3:
